@@ -318,7 +318,7 @@ func moreWildcardOnlyForStar(p *Program, r *Report) {
 	starEdges := func(f *ssa.Function) []edge {
 		var out []edge
 		for _, ce := range condEdgesOf(f) {
-			if (ce.atoms["call:strings.HasSuffix"] && ce.atoms["arg:*"]) || (ce.isEqNeq && ce.atoms["const:42"]) { // '*' == 42
+			if (ce.atoms["call:strings.HasSuffix"] && ce.atoms["arg:*"]) || (ce.atoms["call:strings.CutSuffix"] && ce.atoms["arg:*"] && ce.atoms["extract:1"]) || (ce.isEqNeq && ce.atoms["const:42"]) { // '*' == 42
 				out = append(out, ce.holds)
 			}
 		}
